@@ -34,6 +34,9 @@ inductive Op where
   | cat (srcs : List Nat)                  -- concatenation along the features axis
   | tcat (srcs : List Nat)                 -- concatenation along another axis
   | flat (src mult : Nat)                  -- flatten: every feature becomes `mult` features
+  | reuse (src layer lsrc cout : Nat) (a : LAttr)  -- the searchable conv / linear layer defined at node
+                                           -- `layer` (where it is applied to `lsrc`) applied again, to
+                                           -- `src` (`a.osz` of this call site)
   | output (src : Nat)
   deriving Repr
 
@@ -42,11 +45,12 @@ abbrev Prog := List Op
 def Op.inputs : Op → List Nat
   | .input _ => [] | .conv s _ _ => [s] | .dw s _ => [s] | .lin s _ _ => [s]
   | .fixed s _ _ _ => [s] | .fixedDw s _ => [s] | .chan s => [s] | .add a b => [a, b]
-  | .cat ss => ss | .tcat ss => ss | .flat s _ => [s] | .output s => [s]
+  | .cat ss => ss | .tcat ss => ss | .flat s _ => [s] | .reuse s _ _ _ _ => [s] | .output s => [s]
 
 /-- `is_features_defining_op` -/
 def Op.defining : Op → Bool
-  | .input _ => true | .conv .. => true | .lin .. => true | .fixed .. => true | _ => false
+  | .input _ => true | .conv .. => true | .lin .. => true | .fixed .. => true | .reuse .. => true
+  | _ => false
 def Op.isCat : Op → Bool | .cat _ => true | _ => false
 /-- converted to a PIT layer by `autoimport` -/
 def Op.searchable : Op → Bool | .conv .. => true | .dw .. => true | .lin .. => true | _ => false
@@ -63,15 +67,19 @@ def widthStep (w : List Nat) (op : Op) : Nat :=
   | .fixed _ c _ _ => c | .fixedDw s _ => w.getD s 0 | .chan s => w.getD s 0
   | .add a _ => w.getD a 0 | .cat ss => (ss.map (w.getD · 0)).sum
   | .tcat ss => (match ss with | [] => 0 | s :: _ => w.getD s 0)
-  | .flat s m => w.getD s 0 * m | .output s => w.getD s 0
+  | .flat s m => w.getD s 0 * m | .reuse _ _ _ c _ => c | .output s => w.getD s 0
 
 /-- static number of features of every node (`tensor_meta.shape[1]`) -/
 def widths (p : Prog) : List Nat := p.foldl (fun w op => w ++ [widthStep w op]) []
 
 /-- edges of the "sharing graph": the fx edges minus those entering a features-defining or a
-features-concatenating node -/
+features-concatenating node; plus, for a layer invoked again, an edge between its two call sites
+and an edge between the two tensors it is applied to (one masker, one input-features mask) -/
 def keptEdges (p : Prog) : List (Nat × Nat) :=
-  (p.zipIdx.map fun (op, n) => if op.defining || op.isCat then [] else op.inputs.map (·, n)).flatten
+  (p.zipIdx.map fun (op, n) =>
+    match op with
+    | .reuse s o ls _ _ => [(o, n), (ls, s)]
+    | _ => if op.defining || op.isCat then [] else op.inputs.map (·, n)).flatten
 
 def relabel (es : List (Nat × Nat)) (l : List Nat) : List Nat :=
   es.foldl (fun l (i, n) =>
@@ -160,6 +168,7 @@ def maskStep (p : Prog) (labels : List Nat) (alphaOf : Nat → List Rat) (ms : L
   | .cat ss => (ss.map (ms.getD · [])).flatten
   | .tcat ss => (match ss with | [] => [] | s :: _ => ms.getD s [])
   | .flat s m => expand (ms.getD s []) m
+  | .reuse .. => ownMask p labels alphaOf x.2
   | .output s => ms.getD s []
 
 /-- alive mask of the tensor produced by every node, as the features calculators report it -/
@@ -178,7 +187,7 @@ sharing scheme is sound when no residual sum, non-feature concatenation or depth
 consumes a tainted tensor (known findings K9, K10 are exactly the two ways to violate this). -/
 def taintStep (t : List Bool) (op : Op) : Bool :=
   match op with
-  | .input _ => false | .conv .. => false | .lin .. => false | .fixed .. => false
+  | .input _ => false | .conv .. => false | .lin .. => false | .fixed .. => false | .reuse .. => false
   | .cat _ => true | .flat .. => true
   | .dw s _ => t.getD s false | .fixedDw s _ => t.getD s false | .chan s => t.getD s false
   | .add a b => t.getD a false || t.getD b false
@@ -194,15 +203,24 @@ def supported (p : Prog) : Bool :=
     | .tcat ss => ss.all fun s => !(t.getD s false)
     | .dw s _ => !(t.getD s false)
     | .fixedDw s _ => !(t.getD s false)
+    | .reuse s _ ls _ _ => !(t.getD s false) && !(t.getD ls false)
     | _ => true
 
 /-- sources exist and sizes agree (what makes the seed network run at all) -/
 def wellShaped (p : Prog) : Bool :=
   let w := widths p
   (p.zipIdx.all fun (op, n) => op.inputs.all (· < n)) &&
-  p.all fun op => match op with
+  (p.all fun op => match op with
     | .add a b => w.getD a 0 == w.getD b 0
     | .tcat ss => ss.length == 2 && ss.all fun s => w.getD s 0 == w.getD (ss.headD 0) 0
+    | _ => true) &&
+  -- a layer invoked again: defined earlier, as a searchable conv / linear layer of this width,
+  -- on a tensor of the same width
+  p.zipIdx.all fun (op, n) => match op with
+    | .reuse s o ls c _ => o < n && (match getOp p o with
+        | .conv s' c' _ => c' == c && s' == ls && ls < o && w.getD s 0 == w.getD ls 0
+        | .lin s' c' _ => c' == c && s' == ls && ls < o && w.getD s 0 == w.getD ls 0
+        | _ => false)
     | _ => true
 
 /-- no layer is excluded from the search -/
@@ -243,7 +261,11 @@ def nodeParams (p : Prog) (ms : List (List Bool)) (full : Bool) (n : Nat) : Nat 
   | .lin _ _ a => cout * (cin + b2n a.bias)
   | .fixed s c a _ => if full then c * (w.getD s 0 * a.k + b2n a.bias) else 0
   | .fixedDw s a => if full then w.getD s 0 * (a.k + b2n a.bias) else 0
-  | _ => 0
+  | _ => 0      -- a layer invoked again holds no parameters of its own
+
+/-- parameters the layer of a call site would be charged (what a per-invocation metric scales) -/
+def siteParams (ms : List (List Bool)) (p : Prog) (n : Nat) (a : LAttr) : Nat :=
+  countT (ms.getD n []) * (countT (inMask p ms n) * a.k + b2n a.bias)
 
 def nodeOps (p : Prog) (ms : List (List Bool)) (full : Bool) (n : Nat) : Nat :=
   match getOp p n with
@@ -252,6 +274,10 @@ def nodeOps (p : Prog) (ms : List (List Bool)) (full : Bool) (n : Nat) : Nat :=
   | .lin .. => nodeParams p ms full n
   | .fixed _ _ a isLin => if isLin then nodeParams p ms full n else nodeParams p ms full n * a.osz
   | .fixedDw _ a => nodeParams p ms full n * a.osz
+  | .reuse _ o _ _ a => (match getOp p o with
+      | .conv .. => siteParams ms p n a * a.osz
+      | .lin .. => siteParams ms p n a
+      | _ => 0)
   | _ => 0
 
 def costParams (p : Prog) (ms : List (List Bool)) (full : Bool) : Nat :=
@@ -274,6 +300,12 @@ def exportedNodeOps (p : Prog) (ms : List (List Bool)) (n : Nat) : Nat :=
   | .conv _ _ a => exportedNodeParams p ms n * a.osz
   | .dw _ a => exportedNodeParams p ms n * a.osz
   | .lin .. => exportedNodeParams p ms n
+  | .reuse _ o _ _ a =>       -- the exported layer of node `o`, applied at this call site
+      let pl := planOf p ms o
+      (match getOp p o with
+      | .conv .. => (pl.outKept.length * (pl.inKept.length * a.k) + b2n a.bias * pl.outKept.length) * a.osz
+      | .lin .. => pl.outKept.length * (pl.inKept.length * a.k) + b2n a.bias * pl.outKept.length
+      | _ => 0)
   | _ => 0
 
 def exportedParams (p : Prog) (ms : List (List Bool)) : Nat :=
